@@ -2608,9 +2608,10 @@ class Circuit(AbstractCircuit):
         groups = _group_until_different(insertions, key=lambda e: e[0], val=lambda e: e[1])
         for i, group in groups:
             insert_index = i + shift
-            next_index = copy.insert(insert_index, reversed(group), InsertStrategy.EARLIEST)
-            if next_index > insert_index:
-                shift += next_index - insert_index
+            n_before = len(copy._moments)
+            copy.insert(insert_index, reversed(group), InsertStrategy.EARLIEST)
+            # Only moments created by the insert move the later insertion points.
+            shift += len(copy._moments) - n_before
         self._moments = copy._moments
         self._mutated()
 
